@@ -24,6 +24,8 @@ type Env struct {
 	heap  *Heap
 	old   *Heap
 	inOld bool // evaluating inside old(...)
+	refs  map[string]refBinding // captured variables bound by reference (closure contracts at call sites)
+	refFr *Frame
 	now   string
 	blk   *ssa.BasicBlock // program point for local-name resolution
 	idx   int
@@ -276,6 +278,11 @@ func (e *Env) constOf(c *types.Const) Val {
 
 func (e *Env) lookupIdent(name string) (Val, bool) {
 	vc := e.vc
+	if rb, ok := e.refs[name]; ok && e.refFr != nil {
+		lv := e.refFr.loadPtr(e.heap, rb.ptr, rb.elem)
+		lv.Typ = rb.elem
+		return lv, true
+	}
 	if v, ok := e.vars[name]; ok {
 		return v, true
 	}
@@ -776,6 +783,9 @@ func (e *Env) evalSelector(t *ast.SelectorExpr) Val {
 }
 
 func (e *Env) lookupIdentQuiet(name string) (Val, bool) {
+	if _, ok := e.refs[name]; ok {
+		return Val{}, true
+	}
 	if _, ok := e.vars[name]; ok {
 		return Val{}, true
 	}
